@@ -18,8 +18,9 @@
 //! answers
 //!   total/rep: `len=<bytes> lex=<ok|err@OFF|panic|runaway> n=<tokens before the first error>
 //!               parse=<ok|err@OFF|panic>`
-//!   time     : the same followed by ` lex_us=<µs> parse_us=<µs>` (never compared, never judged
-//!              except by the generous ladder thresholds)
+//!   time     : the same followed by ` lex_us=<µs> parse_us=<µs> cpu_ms=<ms>` (wall time of the two
+//!              stages and CPU time of both; never compared, never judged except by the generous
+//!              ladder threshold, which looks at CPU time only)
 //!   oct/uni/name/fnest: `ok <code points, comma separated>` | `err@OFF` | `panic`
 //!              (for fnest: `ok` | `err@OFF` | `panic`)
 use pvh::*;
@@ -82,10 +83,15 @@ fn run_parse(src: &str, mode: Mode, start: u32) -> (String, u128) {
 }
 
 fn total(src: &str, mode: Mode, start: u32, timed: bool) -> String {
+    let c0 = cpu_ms();
     let (l, lus) = run_lex(src, mode, start);
     let (p, pus) = run_parse(src, mode, start);
     if timed {
-        format!("len={} {} {} lex_us={} parse_us={}", src.len(), l, p, lus, pus)
+        let cpu = match (c0, cpu_ms()) {
+            (Some(a), Some(b)) => (b - a).to_string(),
+            _ => "na".to_string(),
+        };
+        format!("len={} {} {} lex_us={} parse_us={} cpu_ms={}", src.len(), l, p, lus, pus, cpu)
     } else {
         format!("len={} {} {}", src.len(), l, p)
     }
@@ -176,11 +182,27 @@ fn handle(ws: &[&str]) -> String {
     }
 }
 
+/// budgets of the request being served (0 = idle): CPU time of this process in ms at which the
+/// watchdog fires, and a wall-clock backstop (20 x the budget) for the case that CPU time is not
+/// readable
+static DEADLINE_CPU_MS: AtomicU64 = AtomicU64::new(0);
 static DEADLINE_MS: AtomicU64 = AtomicU64::new(0);
 
 fn now_ms() -> u64 {
     use std::time::{SystemTime, UNIX_EPOCH};
     SystemTime::now().duration_since(UNIX_EPOCH).map(|d| d.as_millis() as u64).unwrap_or(0)
+}
+
+/// CPU time (user + system) consumed by this process, in ms, from /proc/self/stat (USER_HZ = 100).
+/// The watchdog budgets are CPU time, not wall time: a loaded machine must never turn a slow
+/// schedule into an alarm, while a loop that does not advance burns CPU and is caught.
+fn cpu_ms() -> Option<u64> {
+    let s = std::fs::read_to_string("/proc/self/stat").ok()?;
+    let rest = &s[s.rfind(')')? + 1..];
+    let f: Vec<&str> = rest.split_ascii_whitespace().collect();
+    let ut: u64 = f.get(11)?.parse().ok()?;
+    let st: u64 = f.get(12)?.parse().ok()?;
+    Some((ut + st) * 10)
 }
 
 /// seconds a request may take before the watchdog kills the process: generous multiples of the
@@ -228,9 +250,12 @@ fn flushing_loop() {
         let r = if tripped() {
             "(skipped)".to_string()
         } else {
-            DEADLINE_MS.store(now_ms() + 1000 * budget_secs(&ws), Ordering::SeqCst);
+            let b = budget_secs(&ws);
+            DEADLINE_CPU_MS.store(cpu_ms().map(|c| c + 1000 * b).unwrap_or(0), Ordering::SeqCst);
+            DEADLINE_MS.store(now_ms() + 20_000 * b, Ordering::SeqCst);
             let r = guard(|| handle(&ws)).unwrap_or_else(|| "(panic)".to_string());
             DEADLINE_MS.store(0, Ordering::SeqCst);
+            DEADLINE_CPU_MS.store(0, Ordering::SeqCst);
             r
         };
         let mut out = stdout.lock();
@@ -256,7 +281,10 @@ fn main() {
             break;
         }
         let d = DEADLINE_MS.load(Ordering::SeqCst);
-        if d != 0 && now_ms() > d {
+        let dc = DEADLINE_CPU_MS.load(Ordering::SeqCst);
+        let cpu_over = d != 0 && dc != 0 && cpu_ms().map(|c| c > dc).unwrap_or(false);
+        // re-check that the same request is still being served (the worker clears the deadlines)
+        if (cpu_over || (d != 0 && now_ms() > d)) && DEADLINE_MS.load(Ordering::SeqCst) == d {
             if let Some(p) = trip_path() {
                 use std::io::Write;
                 if let Ok(mut f) = std::fs::OpenOptions::new().create(true).append(true).open(p) {
@@ -265,7 +293,7 @@ fn main() {
             }
             std::process::exit(3);
         }
-        std::thread::sleep(std::time::Duration::from_millis(20));
+        std::thread::sleep(std::time::Duration::from_millis(if d == 0 { 5 } else { 50 }));
     }
     if t.join().is_err() {
         std::process::exit(101);
